@@ -56,6 +56,9 @@ func DateFromProto(proto *dtpb.Date) (Date, error) {
 	if err != nil {
 		return Date{}, err
 	}
+	// A date has no time zone: keep the calendar date the element denotes, at UTC midnight,
+	// exactly as a parsed date literal is represented.
+	t = time.Date(t.Year(), t.Month(), t.Day(), 0, 0, 0, 0, time.UTC)
 	var l layout
 	switch proto.Precision {
 	case dtpb.Date_DAY:
